@@ -10,6 +10,9 @@ OWNERS = {
     'C04': ['C04.'],
     'C05': ['C05.'],
     'C17': ['C17.'],
+    'C06': ['C06.'],
+    'C07': ['C07.'],
+    'C18': ['C18.'],
 }
 
 
@@ -203,11 +206,118 @@ def replay(ctx, fam, path):
     return 0
 
 
+# ----------------------------------------------------------------------------
+# Decoder family: C06 C07 C18
+# ----------------------------------------------------------------------------
+def dec_ops_to_script(tid, ops, tags=()):
+    """TLC histories of Decoder.tla interleave API calls with the writer's
+    choices ("w" entries): the latter become the script's writer schedule."""
+    begin = ops[0]
+    cfg = {k: v for k, v in begin.items() if k != 'op'}
+    sched, calls = [], []
+    for o in ops[1:]:
+        if o['op'] == 'w':
+            sched.append([o['accept'], 1 if o['fail'] else 0])
+        else:
+            o = dict(o)
+            if o['op'] != 'dec.reset':
+                o['retry'] = True
+            calls.append(o)
+    calls.append(dict(op='dec.flush', retry=True))
+    cfg['wsched'] = sched
+    return dict(tid=tid, comp='dec', cfg=cfg, ops=calls, tags=list(tags))
+
+
+def dec_mutants(evs):
+    if any(e['op'] in ('panic', 'timeout', 'livelock') for e in evs):
+        return
+    for i, e in enumerate(evs):
+        if i == 0:
+            continue
+        if e['op'] in ('dec.write', 'dec.wblock') and e.get('wcalls'):
+            for j, wc in enumerate(e['wcalls']):
+                if wc[0]:
+                    m = copy.deepcopy(evs)
+                    m[i]['wcalls'][j][0][0] = (wc[0][0] + 1) % 256
+                    yield 'flipbyte', m
+                    return
+    for i, e in enumerate(evs):
+        if e['op'] == 'dec.write' and e.get('n', 0) > 0 and i + 2 < len(evs):
+            m = copy.deepcopy(evs)
+            del m[i]
+            yield 'delevent', m
+            return
+
+
+def dec_features(evs):
+    f = set()
+    B, W = evs[0]['B'], evs[0]['W']
+    for e in evs[1:]:
+        if e['op'] in ('panic', 'timeout', 'livelock'):
+            f.add(e['op'])
+            continue
+        wc = e.get('wcalls') or []
+        if any(c[2] != '' for c in wc):
+            f.add('writer_fault')
+            if any(c[2] != '' and 0 < c[1] < len(c[0]) for c in wc):
+                f.add('short_write')
+        if len(wc) >= 2:
+            f.add('multi_flush')
+        if e['op'] == 'dec.write' and e.get('n', 0) > B - W:
+            f.add('write_gt_free')
+        if e['op'] == 'dec.write' and e.get('n', 0) > B:
+            f.add('write_gt_buffer')
+        if e['op'] == 'dec.wblock':
+            if e['err'] == 'full':
+                f.add('refused_full')
+            if e['err'].startswith('other'):
+                f.add('rejected')
+            if any(s[0] + s[1] > B - W for s in e['seqs'][:e['k']]):
+                f.add('seq_gt_free')
+            if e['err'] == 'writer' and (e['k'] > 0 or e['l'] > 0):
+                f.add('fault_mid_block')
+        if B < 2 * W:
+            f.add('B_lt_2W')
+    return f
+
+
+def run_dec(ctx, fam):
+    t = ctx.thorough()
+    log('[%s] design model check (Decoder retry loops over DecoderBufImpl)' % ctx.prop)
+    if ctx.prop == 'C06':
+        vlib.tlc_mc(ctx, 'Decoder.tla', 'DecoderLive_chunk.cfg' if t else 'DecoderLiveQ.cfg', workers='16')
+    else:
+        vlib.tlc_mc(ctx, 'Decoder.tla', 'DecoderSafe.cfg' if t else 'DecoderSafeQ.cfg', workers='16')
+    scripts = []
+    log('[%s] generating histories' % ctx.prop)
+    walks = vlib.tlc_walks(ctx, 'Decoder.tla', 'DecoderWalk.cfg', num=(1200 if t else 200), depth=60, seed=ctx.seed)
+    for i, ops in enumerate(walks):
+        scripts.append(dec_ops_to_script('dec-walk-%d-%d' % (ctx.seed, i), ops, ['tlc-walk']))
+    scripts += vlib.go_gen(ctx, 'dec', 4000 if t else 500, ctx.seed)
+    scripts += corpus_scripts('dec')
+    return finish(ctx, fam, scripts, 'Decoder_Trace', dec_mutants, dec_features)
+
+
+DEC_ASSUME = [
+    'TLC evaluates the DecoderEnv envelope correctly; the recorder logs every API call with its results and every writer call (offered bytes, accepted count, error) in call order',
+    'the destination writer conforms to io.Writer (a short write returns an error); a writer returning (0, nil) for ever is outside the property',
+    'termination on the real code is observed by repeated-state detection (8 consecutive empty writer calls inside one API call) and a 3 s watchdog per call',
+    'uint32 fields are saturated at 2^29 in recordings',
+]
+
+
+def fam_dec(rule):
+    return dict(run=run_dec, trace_module='Decoder_Trace', rule=rule, assumptions=DEC_ASSUME)
+
+
 def fam_dbuf(rule):
     return dict(run=run_dbuf, trace_module='DecoderBuf_Trace', rule=rule, assumptions=DBUF_ASSUME)
 
 
 PROPS = {
+    'C06': fam_dec('histories = random walks of Decoder.tla (API calls x writer fault schedule) + seeded Go-side histories with sizes around BufferSize-WindowSize / BufferSize, B < 2W, fault schedules and the retry protocol; C06 = no livelock / timeout event (no envelope action exists for them); liveness of the retry loops is model-checked (Terminates) on the design; non-trivial = distinct script with several flushes in one call, data larger than the free space, a refused or rejected block, or a writer fault'),
+    'C07': fam_dec('same recordings as C06; rule C07.refused: without a writer fault a Decoder call may stop only at a malformed sequence; non-trivial as for C06'),
+    'C18': fam_dec('same recordings as C06; rules C18.prefix (every writer call is offered exactly the continuation of the reference expansion), C18.err_is_writers, C18.exactly_once (after a fault-free Flush the sink equals the reference expansion, also after retries of Sequences[k:], Literals[l:]); non-trivial = distinct script with a writer fault, short write or fault in the middle of a block'),
     'C04': fam_dbuf('histories = TLC transition cover / random walks of DecoderBufMC + seeded Go-side histories (B<=52, attacker values) + corpus; every event judged by the DecoderBuf envelope (data_suffix, retention, unread_kept, r_pos, read_out, reset); non-trivial = distinct script with a discard, mid-buffer read position, overlapping copy, rejected sequence, partial block or writer fault'),
     'C05': fam_dbuf('same recordings as C04, rules C05.* (malformed match/sequence must be rejected, consumed prefix must be expandable, atomicity via the abstraction equation, caller block untouched, no panic); non-trivial = distinct script with a rejected sequence / partial block / discard'),
     'C17': fam_dbuf('same recordings as C04, rules C17.* (n, k, l, write_n, Off = Len(hist) in every state); non-trivial = distinct script with a discard, partial block, rejected sequence'),
